@@ -17,6 +17,8 @@ package main
 //   G<tag>   valid headers and envelope, payload struct truncated
 //   F<tag>   valid message on a FOREIGN topic (suffix-extended, glued, truncated name)
 //   B        barrier: wait until every callback owed so far has run
+//   W        wait (briefly, no obligation) until one more callback has STARTED: what follows finds the
+//            subscriber busy and the rest of the burst in flight
 //   U        Unsubscribe (with a concurrent IsSubscribed), both under a watchdog
 //
 // The subscriber callback is the emitted `recv<Op>` pattern (header read, op-name check, payload read,
@@ -41,13 +43,16 @@ package main
 // signal that races the queue): at most once, in order — DESIGN.md §7 C07.
 
 import (
+	"bufio"
 	"bytes"
 	"context"
+	"encoding/json"
 	"fmt"
 	"io"
 	stdlog "log"
 	"net"
 	"os"
+	"os/exec"
 	"sort"
 	"strconv"
 	"strings"
@@ -82,6 +87,10 @@ var (
 
 func c07Nats() (string, error) {
 	c07NatsOnce.Do(func() {
+		if u := os.Getenv("C07_NATS_URL"); u != "" {
+			c07NatsURL = u
+			return
+		}
 		s, err := natsd.NewServer(&natsd.Options{Host: "127.0.0.1", Port: -1, NoLog: true, NoSigs: true})
 		if err != nil {
 			c07NatsErr = err
@@ -100,6 +109,10 @@ func c07Nats() (string, error) {
 func c07Stomp() (string, error) {
 	c07StompOnce.Do(func() {
 		stdlog.SetOutput(io.Discard) // go-stomp logs through the standard logger
+		if a := os.Getenv("C07_STOMP_ADDR"); a != "" {
+			c07StompAddr = a
+			return
+		}
 		c07StompAddr, c07StompErr = c07StartBroker()
 	})
 	return c07StompAddr, c07StompErr
@@ -231,7 +244,7 @@ func (s c07Scn) opsArg() string {
 	parts := make([]string, len(s.ops))
 	for i, o := range s.ops {
 		switch o.kind {
-		case 'B', 'U':
+		case 'B', 'U', 'W':
 			parts[i] = string(o.kind)
 		case 'R':
 			parts[i] = "R" + hx(o.raw)
@@ -252,7 +265,7 @@ func c07ParseOps(s string) ([]c07Operation, bool) {
 			return nil, false
 		}
 		switch p[0] {
-		case 'B', 'U':
+		case 'B', 'U', 'W':
 			if len(p) != 1 {
 				return nil, false
 			}
@@ -278,7 +291,7 @@ func (s c07Scn) racing() bool {
 		if o.kind == 'U' && (i == 0 || s.ops[i-1].kind != 'B') {
 			// nothing owed before it? then nothing is in flight either
 			for _, p := range s.ops[:i] {
-				if p.kind != 'F' && p.kind != 'B' && p.kind != 'U' {
+				if p.kind != 'F' && p.kind != 'B' && p.kind != 'U' && p.kind != 'W' {
 					return true
 				}
 			}
@@ -462,7 +475,7 @@ func c07Run(s c07Scn) *c07Result {
 	var mu sync.Mutex
 	type pubInfo struct{ opid string }
 	published := map[int]pubInfo{}
-	var cbCount, errCount int64
+	var cbCount, errCount, startCount, startSeen int64
 	handler := func(fctx frugal.FContext, p *c07Payload) error {
 		tag := int(p.Tag)
 		bad := ""
@@ -489,6 +502,7 @@ func c07Run(s c07Scn) *c07Result {
 	}
 	inner := c07Recv(c07Op, binFactory, handler)
 	cb := func(tr thrift.TTransport) error {
+		atomic.AddInt64(&startCount, 1)
 		err := inner(tr)
 		if err != nil {
 			atomic.AddInt64(&errCount, 1)
@@ -529,9 +543,9 @@ func c07Run(s c07Scn) *c07Result {
 		}
 	}
 
-	owedCb := int64(0)      // callbacks owed so far (messages on the topic with >= 4 bytes, while subscribed)
-	var valid []int         // V tags published while subscribed (before U was called), in order
-	must := map[int]bool{}  // V tags published before a barrier
+	owedCb := int64(0)     // callbacks owed so far (messages on the topic with >= 4 bytes, while subscribed)
+	var valid []int        // V tags published while subscribed (before U was called), in order
+	must := map[int]bool{} // V tags published before a barrier
 	subscribed := true
 	barrier := func() {
 		if !subscribed {
@@ -577,6 +591,13 @@ func c07Run(s c07Scn) *c07Result {
 			}
 		case 'B':
 			barrier()
+			startSeen = atomic.LoadInt64(&startCount)
+		case 'W':
+			deadline := time.Now().Add(200 * time.Millisecond)
+			for atomic.LoadInt64(&startCount) <= startSeen && time.Now().Before(deadline) {
+				time.Sleep(20 * time.Microsecond)
+			}
+			startSeen = atomic.LoadInt64(&startCount)
 		case 'U':
 			if !subscribed {
 				// a second Unsubscribe is a no-op that must return as well
@@ -742,6 +763,8 @@ func c07Gen(r *Rng) c07Scn {
 		if i == uAt {
 			if !racing {
 				s.ops = append(s.ops, c07Operation{kind: 'B'})
+			} else if r.Chance(60) {
+				s.ops = append(s.ops, c07Operation{kind: 'W'})
 			}
 			s.ops = append(s.ops, c07Operation{kind: 'U'})
 			for k := r.Intn(4); k > 0; k-- { // published after Unsubscribe returned
@@ -782,9 +805,162 @@ func c07Gen(r *Rng) c07Scn {
 	return s
 }
 
-func c07Report(s c07Scn, res *c07Result) {
-	line, real := s.line(res)
-	Case(line, real)
+// ---------- supervisor / child processes ----------
+//
+// lib/go has no recover(): a panic inside a transport goroutine (processMessages calling a nil
+// callback …) kills the process. Scenarios therefore run in CHILD processes of this binary (suite
+// "c07child": scenario lines on stdin, one JSON result per line on stdout, sequentially); the
+// supervisor hosts the brokers, owns the generation, and turns a child that died into the outcome
+// `crashed` of the scenario that was running (and restarts a child for the rest).
+
+type c07Out struct {
+	Line      string   `json:"line"`
+	Real      string   `json:"real"`
+	Fails     []string `json:"fails"`
+	Delivered int      `json:"delivered"`
+	Unsub     string   `json:"unsub"`
+}
+
+func (s c07Scn) childLine() string {
+	return fmt.Sprintf("%s %d %d %s", s.tr, s.w, s.delayUs, s.opsArg())
+}
+
+func c07ParseScn(args []string) (c07Scn, bool) {
+	if len(args) != 4 {
+		return c07Scn{}, false
+	}
+	w, e1 := strconv.Atoi(args[1])
+	d, e2 := strconv.Atoi(args[2])
+	ops, ok := c07ParseOps(args[3])
+	if e1 != nil || e2 != nil || !ok || (args[0] != "nats" && args[0] != "stomp") || d < 0 || d > 100000 {
+		return c07Scn{}, false
+	}
+	return c07Scn{tr: args[0], w: w, delayUs: d, ops: ops}, true
+}
+
+func runC07Child(r *Rng, n int) {
+	sc := bufio.NewScanner(os.Stdin)
+	sc.Buffer(make([]byte, 1<<20), 1<<26)
+	w := bufio.NewWriter(os.Stdout)
+	for sc.Scan() {
+		s, ok := c07ParseScn(strings.Split(strings.TrimSpace(sc.Text()), " "))
+		var o c07Out
+		if !ok {
+			o = c07Out{Real: "bad-args"}
+		} else {
+			res := c07Run(s)
+			line, real := s.line(res)
+			o = c07Out{Line: line, Real: real, Fails: res.fails, Delivered: len(res.delivered), Unsub: res.unsub}
+		}
+		b, _ := json.Marshal(o)
+		w.Write(b)
+		w.WriteByte('\n')
+		w.Flush()
+	}
+}
+
+// c07Chunk runs the scenarios sequentially in child processes, restarting after a crash.
+func c07Chunk(scns []c07Scn, outs []c07Out) {
+	natsURL, e1 := c07Nats()
+	stompAddr, e2 := c07Stomp()
+	next := 0
+	for next < len(scns) {
+		if e1 != nil || e2 != nil {
+			outs[next] = c07Out{Real: "harness", Fails: []string{fmt.Sprintf("harness: brokers: %v %v", e1, e2)}}
+			next++
+			continue
+		}
+		var in bytes.Buffer
+		for _, s := range scns[next:] {
+			in.WriteString(s.childLine() + "\n")
+		}
+		cmd := exec.Command(os.Args[0], "c07child")
+		cmd.Env = append(os.Environ(), "C07_NATS_URL="+natsURL, "C07_STOMP_ADDR="+stompAddr)
+		cmd.Stdin = &in
+		var stderr bytes.Buffer
+		cmd.Stderr = &stderr
+		stdout, err := cmd.StdoutPipe()
+		if err != nil || cmd.Start() != nil {
+			outs[next] = c07Out{Real: "harness", Fails: []string{"harness: cannot start child process"}}
+			next++
+			continue
+		}
+		sc := bufio.NewScanner(stdout)
+		sc.Buffer(make([]byte, 1<<20), 1<<26)
+		for sc.Scan() && next < len(scns) {
+			if len(sc.Bytes()) == 0 || sc.Bytes()[0] != '{' {
+				continue
+			}
+			var o c07Out
+			if json.Unmarshal(sc.Bytes(), &o) == nil {
+				outs[next] = o
+				next++
+			}
+		}
+		werr := cmd.Wait()
+		if next < len(scns) {
+			// the child died while scenario `next` was running
+			why := "child process ended early"
+			if werr != nil {
+				why = werr.Error()
+			}
+			for _, l := range strings.Split(stderr.String(), "\n") {
+				if strings.HasPrefix(l, "panic:") || strings.HasPrefix(l, "fatal error:") {
+					why = l
+					break
+				}
+			}
+			where := ""
+			for _, l := range strings.Split(stderr.String(), "\n") {
+				if strings.Contains(l, "frugal/lib/go.") {
+					where = strings.TrimSpace(l[strings.Index(l, "frugal/lib/go.")+len("frugal/lib/go."):])
+					if k := strings.LastIndex(where, "("); k > 0 {
+						where = where[:k] // drop the argument words (addresses)
+					}
+					where = " in " + where
+					break
+				}
+			}
+			s := scns[next]
+			line := fmt.Sprintf("ps %s", s.childLine())
+			if s.racing() {
+				line = fmt.Sprintf("psr %s %d %d - %s", s.tr, s.w, s.delayUs, s.opsArg())
+			}
+			outs[next] = c07Out{Line: line, Real: "crashed", Unsub: "crashed",
+				Fails: []string{"the process crashed (" + why + where + "): lib/go has no recover, one subscriber kills the service"}}
+			next++
+		}
+	}
+}
+
+// c07Supervise runs the scenarios in `par` parallel chunks.
+func c07Supervise(scns []c07Scn, par int) []c07Out {
+	outs := make([]c07Out, len(scns))
+	if par > len(scns) {
+		par = len(scns)
+	}
+	if par < 1 {
+		par = 1
+	}
+	var wg sync.WaitGroup
+	per := (len(scns) + par - 1) / par
+	for a := 0; a < len(scns); a += per {
+		b := a + per
+		if b > len(scns) {
+			b = len(scns)
+		}
+		wg.Add(1)
+		go func(a, b int) {
+			defer wg.Done()
+			c07Chunk(scns[a:b], outs[a:b])
+		}(a, b)
+	}
+	wg.Wait()
+	return outs
+}
+
+func c07Report(s c07Scn, o c07Out) {
+	Case(o.Line, o.Real)
 	Stat("evaluations")
 	Stat("transport:" + s.tr)
 	Stat(fmt.Sprintf("workers:%d", s.w))
@@ -793,10 +969,10 @@ func c07Report(s c07Scn, res *c07Result) {
 	} else {
 		Stat("shape:quiescent")
 	}
-	for _, o := range s.ops {
-		k := string(o.kind)
-		if o.kind == 'R' {
-			if len(o.raw) < 4 {
+	for _, op := range s.ops {
+		k := string(op.kind)
+		if op.kind == 'R' {
+			if len(op.raw) < 4 {
 				k = "R:short"
 			} else {
 				k = "R:long"
@@ -804,12 +980,28 @@ func c07Report(s c07Scn, res *c07Result) {
 		}
 		Stat("op:" + k)
 	}
-	StatN("delivered", len(res.delivered))
-	Stat("unsub:" + res.unsub)
-	Sample(map[string]interface{}{"line": clip(line), "real": real})
-	if len(res.fails) > 0 {
-		OracleFail("pub/sub delivery: "+res.fails[0], map[string]interface{}{"op": strings.SplitN(line, " ", 2)[0], "line": line, "got": real, "all": res.fails})
+	StatN("delivered", o.Delivered)
+	Stat("unsub:" + o.Unsub)
+	ln := o.Line
+	if len(ln) > 300 {
+		ln = ln[:300] + "…"
 	}
+	Sample(map[string]interface{}{"line": ln, "real": o.Real})
+	if len(o.Fails) > 0 {
+		OracleFail("pub/sub delivery: "+c07Class(o.Fails[0]), map[string]interface{}{"op": strings.SplitN(o.Line, " ", 2)[0], "line": o.Line, "got": o.Real, "all": o.Fails})
+	}
+}
+
+// c07Class strips the numbers from an oracle message so that the shrinker recognises the same failure.
+func c07Class(f string) string {
+	var b strings.Builder
+	for _, c := range f {
+		if c >= '0' && c <= '9' {
+			continue
+		}
+		b.WriteRune(c)
+	}
+	return b.String()
 }
 
 func runC07RT(r *Rng, n int) {
@@ -817,56 +1009,41 @@ func runC07RT(r *Rng, n int) {
 	for i := range scns {
 		scns[i] = c07Gen(r)
 	}
-	results := make([]*c07Result, n)
-	var wg sync.WaitGroup
-	sem := make(chan struct{}, 4)
+	outs := c07Supervise(scns, 4)
 	for i := range scns {
-		wg.Add(1)
-		sem <- struct{}{}
-		go func(i int) {
-			defer wg.Done()
-			defer func() { <-sem }()
-			results[i] = c07Run(scns[i])
-		}(i)
-	}
-	wg.Wait()
-	for i := range scns {
-		c07Report(scns[i], results[i])
+		c07Report(scns[i], outs[i])
 	}
 }
 
 func c07ReplayLine(op string, args []string) (string, bool) {
-	want := 4
 	if op == "psr" {
-		want = 5
+		if len(args) != 5 {
+			return "bad-args", true
+		}
+		args = append(append([]string{}, args[:3]...), args[4])
 	}
-	if len(args) != want {
+	s, ok := c07ParseScn(args)
+	if !ok {
 		return "bad-args", true
 	}
-	w, e1 := strconv.Atoi(args[1])
-	d, e2 := strconv.Atoi(args[2])
-	ops, ok := c07ParseOps(args[want-1])
-	if e1 != nil || e2 != nil || !ok || (args[0] != "nats" && args[0] != "stomp") {
-		return "bad-args", true
-	}
-	s := c07Scn{tr: args[0], w: w, delayUs: d, ops: ops}
-	res := c07Run(s)
-	_, real := s.line(res)
-	if op == "psr" && !s.racing() {
+	o := c07Supervise([]c07Scn{s}, 1)[0]
+	real := o.Real
+	if op == "psr" && !s.racing() && real != "crashed" {
 		real = "ok"
-		if len(res.fails) > 0 {
+		if len(o.Fails) > 0 {
 			real = "bad"
 		}
 	}
-	if op == "ps" && s.racing() {
+	if op == "ps" && s.racing() && real != "crashed" {
 		// a `ps` line whose Unsubscribe lost its barrier (shrinking): only the oracle speaks
 		real = "racing"
 	}
-	return real, len(res.fails) == 0
+	return real, len(o.Fails) == 0
 }
 
 func init() {
 	suites["c07rt"] = runC07RT
+	suites["c07child"] = runC07Child
 	lineOps["ps"] = func(args []string) (string, bool) { return c07ReplayLine("ps", args) }
 	lineOps["psr"] = func(args []string) (string, bool) { return c07ReplayLine("psr", args) }
 }
